@@ -146,4 +146,22 @@ theorem join_closes (k : Nat) (inCap : Nat → Nat) {p : Pool Unit α α}
     (fun i _ => C06.sel_never_blockedPlain _ C06.copy_sel (by intro s; rfl) hI i)
   exact ⟨this.1, this.2 0 (by simp)⟩
 
+/-- nothing invented, in every reachable state (cancelled or not, copiers still running or not): whatever a consumer has
+received from `out`, or still finds buffered there, was sent on one of the inputs -/
+theorem join_no_invention (k : Nat) (inCap : Nat → Nat) {p : Pool Unit α α}
+    (hr : Reachable copyS (joinPool k inCap) p) (x : α) (hx : x ∈ p.delivered 0 ++ (p.outs 0).buf) :
+    ∃ i, x ∈ p.sent i := by
+  rw [join_fifo k inCap hr] at hx
+  obtain ⟨e, he, rfl⟩ := List.mem_map.mp hx
+  refine ⟨e.1, (join_per_input_order k inCap hr e.1).subset ?_⟩
+  exact List.mem_map.mpr ⟨e, List.mem_filter.mpr ⟨he, by simp⟩, rfl⟩
+
+/-- … and never more copies of it than were sent: per input, the delivered-or-buffered elements that came from
+that input number at most the elements sent on it -/
+theorem join_no_duplication (k : Nat) (inCap : Nat → Nat) {p : Pool Unit α α}
+    (hr : Reachable copyS (joinPool k inCap) p) (i : Nat) :
+    ((p.emitted 0).filter (·.1 == i)).length ≤ (p.sent i).length := by
+  have := (join_per_input_order k inCap hr i).length_le
+  simpa using this
+
 end Golem.Props.C12
